@@ -160,6 +160,20 @@ inline Verdict fail(std::string oracle, std::string msg = "") { return {Verdict:
 inline Verdict discard(std::string why = "") { return {Verdict::DISCARD, std::move(why), ""}; }
 inline Verdict excluded(std::string key) { return {Verdict::EXCLUDED, std::move(key), ""}; }
 
+// known-finding keys listed in /verif/known_findings.txt for this property (passed by the driver in VERIF_KNOWN).
+// A harness excludes the class of a listed finding by construction:  if (pbt::known("key") && matches) return pbt::excluded("key");
+// When the key is not listed (entry removed, or witness replay) the class is tested normally.
+inline bool known(const std::string& key) {
+  static const std::set<std::string> keys = [] {
+    std::set<std::string> k;
+    const char* e = std::getenv("VERIF_KNOWN");
+    std::string cur;
+    for (const char* p = e ? e : ""; ; ++p) { if (*p == ',' || *p == 0) { if (!cur.empty()) k.insert(cur); cur.clear(); if (!*p) break; } else cur += *p; }
+    return k;
+  }();
+  return keys.count(key) > 0;
+}
+
 struct Runtime;
 struct Ctx {
   Src& src;
